@@ -377,7 +377,8 @@ class Layout:
         self.plain = plain
 
     def kw(self, w):
-        if self.plain:
+        if self.plain or w.upper() == "AUTO":
+            # AUTO (PROJECTION AUTO) is an enumerated *value*, stored as written: its case is not varied
             return w.upper()
         return self.rng.choice([w.upper(), w.lower(), w.capitalize(), "".join(self.rng.choice([c.upper(), c.lower()]) for c in w)])
 
